@@ -22,7 +22,8 @@ for d in /verif/seeded/C*-m*; do
     r=$(/verif/tools/seedrun.sh $p $c $tier 2>&1)
     rc=$(echo "$r" | grep -o "rc=[0-9]*" | tail -1)
     clause=$(echo "$r" | grep -o "clause=[^:]*" | head -1)
-    echo "| $id | $c $tier | ${rc#rc=} | ${clause#clause=} |" >> $tmp
+    note=""; [ -f $d/UNDETECTED.md ] && [ "${rc#rc=}" = "0" ] && note=" — $(head -1 $d/UNDETECTED.md)"
+    echo "| $id | $c $tier | ${rc#rc=} | ${clause#clause=}$note |" >> $tmp
     echo "$id $c $rc $clause"
   done
 done
